@@ -152,8 +152,12 @@ class AnsiDecoder:
             elif sgr:
                 # Translate in to semi-colon separated codes
                 # Ignore invalid codes, because we want to be lenient
+                # (ASCII digits only: str.isdigit() also accepts characters int() rejects;
+                # the first four significant digits decide whether a code exceeds 255)
                 codes = [
-                    min(255, int(_code)) for _code in sgr.split(";") if _code.isdigit()
+                    min(255, int(_code.lstrip("0")[:4] or "0"))
+                    for _code in sgr.split(";")
+                    if _code and not _code.strip("0123456789")
                 ]
                 iter_codes = iter(codes)
                 for code in iter_codes:
